@@ -2021,7 +2021,7 @@ def schedules(rng, quick: bool, exh: dict):
                                    observation="all contexts after every step (iter, getattr, top, proxies); all runners up to length 2")
     # LocalProxy over a bare ContextVar (number 0 without, number 1 WITH a default): set to an object, set to None (bound:
     # resolves to None), set then reset(token); siblings / child / parent / fresh thread; oracle-only
-    L_cv = 4 if quick else 5
+    L_cv = 4          # (thorough: the same; length 5 alone added 15 minutes of oracle-only schedules)
     n = 0
     for ln in range(1, L_cv + 1):
         for m in enumerate_muts(CVALPHA, ln):
@@ -2050,7 +2050,7 @@ def schedules(rng, quick: bool, exh: dict):
                                         "context resolves to, after every in-place operation; implementation vs oracle only")
     # dotted names: local("a.twin"), local("a.twin.twin"), stack("twin.twin"), LocalProxy(ContextVar, "twin.twin") resolve to
     # obj.twin.twin of the object bound in the accessing context; unbound iff nothing is bound; oracle-only
-    L_dn = 3 if quick else 4
+    L_dn = 3          # (thorough: the same)
     n = 0
     for ln in range(1, L_dn + 1):
         for m in enumerate_muts(DNALPHA, ln):
